@@ -10,7 +10,12 @@
 use std::collections::BTreeSet;
 
 use hickory_net::runtime::TokioRuntimeProvider;
-use hickory_proto::op::ResponseCode;
+use hickory_net::xfer::Protocol;
+use hickory_proto::op::{Message, OpCode, Query, ResponseCode};
+use hickory_proto::rr::TSigner;
+use hickory_proto::rr::rdata::tsig::TsigAlgorithm;
+use hickory_server::server::Request;
+use hickory_server::zone_handler::ZoneHandler;
 use hickory_proto::rr::rdata::SOA;
 use hickory_proto::rr::{DNSClass, Name, RData, Record, RecordType};
 use hickory_proto::serialize::binary::{BinDecodable, BinDecoder, BinEncodable, BinEncoder};
@@ -137,7 +142,9 @@ pub fn new_handler(origin: &Name, recs: &[Record]) -> Handler {
     for r in recs {
         mem.upsert_mut(r.clone(), 0);
     }
-    SqliteZoneHandler::new(mem, AxfrPolicy::Deny, true, false)
+    let mut h = SqliteZoneHandler::new(mem, AxfrPolicy::Deny, true, false);
+    h.set_tsig_signers(vec![signer()]);
+    h
 }
 
 /// one RR of the observed zone
@@ -237,6 +244,40 @@ pub fn run_update(rt: &tokio::runtime::Runtime, h: &Handler, pre: &[Record], upd
         Ok(x) => x,
         Err(_) => ("apply", "panic".to_string()),
     }
+}
+
+/// the TSIG key every `updf` message is signed with (authorisation itself is C13's subject)
+pub fn signer() -> TSigner {
+    TSigner::new(b"0123456789abcdef0123456789abcdef".to_vec(), TsigAlgorithm::HmacSha256, Name::from_ascii("update-key.").unwrap(), 300).expect("tsigner")
+}
+
+pub const NOW: u64 = 1_700_000_000;
+
+/// a signed UPDATE message on the wire, parsed back into a `Request` as the server does
+pub fn build_request(origin: &Name, pre: &[Record], upd: &[Record], signer: &TSigner) -> Option<Request> {
+    let mut zone = Query::new(origin.clone(), RecordType::SOA);
+    zone.set_query_class(DNSClass::IN);
+    let mut m = Message::query();
+    m.id = 4711;
+    m.op_code = OpCode::Update;
+    m.recursion_desired = false;
+    m.add_query(zone);
+    m.add_answers(pre.iter().cloned());
+    m.add_authorities(upd.iter().cloned());
+    m.finalize(signer, NOW).ok()?;
+    let bytes = m.to_vec().ok()?;
+    Request::from_bytes(bytes, "127.0.0.1:5300".parse().unwrap(), Protocol::Udp).ok()
+}
+
+/// the whole `ZoneHandler::update` (authorise → prerequisites → prescan → apply)
+pub fn run_update_full(rt: &tokio::runtime::Runtime, h: &Handler, origin: &Name, pre: &[Record], upd: &[Record]) -> Option<String> {
+    let req = build_request(origin, pre, upd, &signer())?;
+    Some(match catch(|| rt.block_on(h.update(&req, NOW))) {
+        Ok((Ok(true), _)) => "ok1".to_string(),
+        Ok((Ok(false), _)) => "ok0".to_string(),
+        Ok((Err(c), _)) => rc_tok(c).to_string(),
+        Err(_) => "panic".to_string(),
+    })
 }
 
 // ------------------------------------------------------------------------------------------------
@@ -709,11 +750,18 @@ pub fn judge(origin: &Name, before: &Snap, after: &Snap, pre: &[Record], upd: &[
     // --- the serial has strictly advanced (RFC 1982) iff the content changed
     if res != "panic" {
         let explicit_soa = upd_m.iter().any(|r| r.class == C_IN && r.rtype == T_SOA && r.name == zname);
-        // advanced in one RFC 1982 step, or in two (to an explicit newer SOA serial of the message, then +1)
-        let via_explicit = upd_m.iter().filter(|r| r.class == C_IN && r.rtype == T_SOA && r.name == zname).any(|r| {
+        // advanced in one RFC 1982 step, or along the chain of explicit SOA serials of the message (each of them
+        // newer than the one before; "newer" is not transitive over more than 2^31) and a final +1
+        let mut cur = before.serial;
+        let mut steps = 0;
+        for r in upd_m.iter().filter(|r| r.class == C_IN && r.rtype == T_SOA && r.name == zname) {
             let ns = (RR { name: String::new(), rtype: T_SOA, ttl: 0, rd: r.rd.clone() }).soa_serial().unwrap_or(0);
-            serial_lt(before.serial, ns) && after.serial == ns.wrapping_add(1)
-        });
+            if serial_lt(cur, ns) {
+                cur = ns;
+                steps += 1;
+            }
+        }
+        let via_explicit = steps > 0 && (after.serial == cur || after.serial == cur.wrapping_add(1));
         let adv = serial_lt(before.serial, after.serial) || via_explicit;
         let cls = first(&[(t.overflow, CL_OVERFLOW), (t.plaincmp, CL_PLAINCMP), (t.cname_readd, CL_CNAME_READD), (t.ghost, CL_GHOST), (t.nonapex_soa, CL_NONAPEX_SOA)]);
         if changed && !adv {
@@ -742,6 +790,8 @@ pub struct Hist {
     pub rt: tokio::runtime::Runtime,
     pub origin: Name,
     pub h: Option<Handler>,
+    /// fed every message through the three public calls; `updf` compares the real `update()` with it
+    pub twin: Option<Handler>,
     pub changes: u32,
 }
 
@@ -766,6 +816,7 @@ pub fn exec(line: &str, hist: &mut Hist, rec: &mut Recorder) {
             let h = new_handler(&o, &rs);
             let s = snapshot(&hist.rt, &h);
             rec.case(line.to_string(), format!("begin {} 0 {}", s.serial, s.dump));
+            hist.twin = Some(new_handler(&o, &rs));
             hist.origin = o;
             hist.h = Some(h);
             hist.changes = 0;
@@ -774,6 +825,39 @@ pub fn exec(line: &str, hist: &mut Hist, rec: &mut Recorder) {
         ["end"] => {
             rec.case(line.to_string(), "end".into());
             hist.h = None;
+            hist.twin = None;
+        }
+        ["updf", rest @ ..] => {
+            // the real `ZoneHandler::update` on a signed wire message; the twin takes the three public calls
+            let (Some(h), Some(tw), Some((p, u))) = (hist.h.as_ref(), hist.twin.as_ref(), split_pu(rest)) else {
+                rec.stat("skipped.unparsable-case");
+                return;
+            };
+            let before = snapshot(&hist.rt, h);
+            let Some(res) = run_update_full(&hist.rt, h, &hist.origin, &p, &u) else {
+                rec.stat("skipped.unencodable-message");
+                return;
+            };
+            let after = snapshot(&hist.rt, h);
+            let (tstage, tres) = run_update(&hist.rt, tw, &p, &u);
+            let tafter = snapshot(&hist.rt, tw);
+            let idx = rec.case(line.to_string(), format!("full {res} {} 0 {}", after.serial, after.dump));
+            rec.stat("op.updf");
+            rec.stat(&format!("updf.{res}"));
+            if res != tres || after != tafter {
+                rec.fail(idx, format!("ZoneHandler::update answered {res} (serial {}); verify_prerequisites → pre_scan → update_records answers {tstage}/{tres} (serial {}) or leaves a different zone", after.serial, tafter.serial), "");
+            }
+            let v = judge(&hist.origin, &before, &after, &p, &u, tstage, &res);
+            if v.changed {
+                hist.changes += 1;
+            }
+            if v.changed || hist.changes > 0 {
+                rec.nontrivial(idx);
+            }
+            for (what, class) in v.fails {
+                rec.stat(&format!("oracle.fail.{}", if class.is_empty() { "UNCLASSIFIED" } else { &class }));
+                rec.fail(idx, what, &class);
+            }
         }
         ["upd", rest @ ..] => {
             let (Some(h), Some((p, u))) = (hist.h.as_ref(), split_pu(rest)) else {
@@ -783,6 +867,9 @@ pub fn exec(line: &str, hist: &mut Hist, rec: &mut Recorder) {
             let before = snapshot(&hist.rt, h);
             let (stage, res) = run_update(&hist.rt, h, &p, &u);
             let after = snapshot(&hist.rt, h);
+            if let Some(tw) = hist.twin.as_ref() {
+                let _ = run_update(&hist.rt, tw, &p, &u);
+            }
             let idx = rec.case(line.to_string(), format!("{stage} {res} {} 0 {}", after.serial, after.dump));
             let v = judge(&hist.origin, &before, &after, &p, &u, stage, &res);
             rec.stat("op.upd");
@@ -821,6 +908,9 @@ pub fn exec(line: &str, hist: &mut Hist, rec: &mut Recorder) {
                 Err(_) => "panic".to_string(),
             };
             let after = snapshot(&hist.rt, h);
+            if let Some(tw) = hist.twin.as_ref() {
+                let _ = catch(|| hist.rt.block_on(tw.update_records(&u, true)));
+            }
             rec.case(line.to_string(), format!("raw {res} {} 0 {}", after.serial, after.dump));
             rec.stat("op.raw");
             rec.stat(&format!("raw.{res}"));
@@ -1059,7 +1149,9 @@ fn gen_history(rng: &mut Rng) -> Vec<String> {
         // records) only ever ends a history, so that no judged message meets its aftermath
         let k = if i + 1 == len { rng.below(20) } else { rng.below(18) };
         if k < 16 {
-            v.push(gen_msg(rng));
+            let m = gen_msg(rng);
+            // one message in five goes through the real `update()` as a TSIG-signed wire message
+            v.push(if rng.chance(1, 5) { m.replacen("upd ", "updf ", 1) } else { m });
         } else if k < 18 {
             let np = rng.range(1, 2);
             let mut s = String::from("pre");
@@ -1084,7 +1176,7 @@ fn gen_history(rng: &mut Rng) -> Vec<String> {
 
 pub fn run(o: &Opts, rec: &mut Recorder) {
     rec.rule = "an `upd`/`pre` line that changed the zone or was judged after an earlier change of the same history (distinct by case text)".into();
-    let mut hist = Hist { rt: rt(), origin: Name::root(), h: None, changes: 0 };
+    let mut hist = Hist { rt: rt(), origin: Name::root(), h: None, twin: None, changes: 0 };
     for l in &o.pre_lines {
         exec(l, &mut hist, rec);
     }
